@@ -52,7 +52,7 @@ def run(ctx):
 
     # ---- inputs: fixed pairs first, then generated ones
     raw = [(s, d, op) for s, d, op in FIXED]
-    n_schemas = 40 if quick else 160
+    n_schemas = 80 if quick else 160
     docs_per = 3 if quick else 4
     for i in range(n_schemas):
         sch = gen_schema(rng, covariant=(i % 5 == 4))
